@@ -3,23 +3,8 @@ use super::*;
 use crate::MithrilMembershipDigest as MD;
 include!("common.inc");
 
-/// callee contracts (their own harnesses: sig_reg.rs, path.rs): arbitrary outcome, never panic
-fn stub_sig_reg_from_bytes<D: MembershipDigest>(_bytes: &[u8]) -> StmResult<SingleSignatureWithRegisteredParty> {
-    Err(anyhow!("sig_reg (stub)"))
-}
-fn stub_batch_path_from_bytes<D: digest::Digest + digest::FixedOutput>(_bytes: &[u8]) -> StmResult<MerkleBatchPath<D>> {
-    if kani::any() { Ok(MerkleBatchPath::new(vec![], vec![])) } else { Err(anyhow!("path (stub)")) }
-}
 
-never_panics!(c05_concatenation_proof_legacy_len0, 0, 3, ConcatenationProof::<MD>::from_bytes_legacy,
-    kani::stub(crate::protocol::single_signature::signature_registered_party::SingleSignatureWithRegisteredParty::from_bytes, stub_sig_reg_from_bytes),
-    kani::stub(crate::membership_commitment::merkle_tree::path::MerkleBatchPath::from_bytes, stub_batch_path_from_bytes));
-never_panics!(c05_concatenation_proof_legacy_len8, 8, 3, ConcatenationProof::<MD>::from_bytes_legacy,
-    kani::stub(crate::protocol::single_signature::signature_registered_party::SingleSignatureWithRegisteredParty::from_bytes, stub_sig_reg_from_bytes),
-    kani::stub(crate::membership_commitment::merkle_tree::path::MerkleBatchPath::from_bytes, stub_batch_path_from_bytes));
-never_panics!(c05_concatenation_proof_legacy_len20, 20, 3, ConcatenationProof::<MD>::from_bytes_legacy,
-    kani::stub(crate::protocol::single_signature::signature_registered_party::SingleSignatureWithRegisteredParty::from_bytes, stub_sig_reg_from_bytes),
-    kani::stub(crate::membership_commitment::merkle_tree::path::MerkleBatchPath::from_bytes, stub_batch_path_from_bytes));
-never_panics!(c05_concatenation_proof_dispatch_len9, 9, 3, ConcatenationProof::<MD>::from_bytes,
-    kani::stub(crate::protocol::single_signature::signature_registered_party::SingleSignatureWithRegisteredParty::from_bytes, stub_sig_reg_from_bytes),
-    kani::stub(crate::membership_commitment::merkle_tree::path::MerkleBatchPath::from_bytes, stub_batch_path_from_bytes));
+never_panics_nested!(c05_concatenation_proof_legacy_len0, 0, 3, ConcatenationProof::<MD>::from_bytes_legacy);
+never_panics_nested!(c05_concatenation_proof_legacy_len8, 8, 3, ConcatenationProof::<MD>::from_bytes_legacy);
+never_panics_nested!(c05_concatenation_proof_legacy_len20, 20, 3, ConcatenationProof::<MD>::from_bytes_legacy);
+never_panics_nested!(c05_concatenation_proof_dispatch_len9, 9, 3, ConcatenationProof::<MD>::from_bytes);
